@@ -163,6 +163,7 @@ def finish(res, level_text, trusted_base, out=None):
             rules=rules_out,
             assumed_not_decided=res.assumed,
             notes=res.notes,
+            planted_breaks=getattr(res, "selftest", []),
             known_findings=[dict(key=v.full_key(), what=k.get("what", "")) for v, k in known_hit],
             new_violations=[dict(key=v.full_key(), msg=v.msg, where=v.where) for v in new_viol],
             anchor_failures=["%s[%s]: %s" % a for a in res.anchor_failures],
